@@ -444,45 +444,32 @@ def asUsizeOrFail (v : Nat) (reason : IResult := .InvalidOperandOOG) : M Nat :=
 /-- `as_usize_saturated!` / `as_u64_saturated!` -/
 def asUsizeSat (v : Nat) : Nat := U256.asU64Sat v
 
+/-- a `SharedMemory` result inside a handler: `panic` is a Rust panic, `ub` an access outside the context -/
+def memRes {α β} (r : Memory.Res α) (k : α → Exec β) : Exec β :=
+  match r with
+  | .ok a => k a
+  | .panic => .fault .panic
+  | .ub => .fault .oobMemory
+
 /-- `resize_memory!(interp, offset, len)` -/
 def resizeMem (offset len : Nat) : M Unit := fun s =>
-  match Memory.resizeMemoryMacro s.mem s.gas.remaining offset len with
-  | .ok (true, m, rem) => .ok () { s with mem := m, gas := { s.gas with remaining := rem } }
-  | .ok (false, _, _) => .halt .MemoryOOG [] s
-  | .panic => .fault .panic
-  | .ub => .fault .oobMemory
-
-def liftMemRead {α} (r : Memory.Res α) : M α :=
-  match r with
-  | .ok a => pure a
-  | .panic => faultWith .panic
-  | .ub => faultWith .oobMemory
+  memRes (Memory.resizeMemoryMacro s.mem s.gas.remaining offset len) fun r =>
+    if r.1 then .ok () { s with mem := r.2.1, gas := { s.gas with remaining := r.2.2 } }
+    else .halt .MemoryOOG [] s
 
 def liftMemWrite (f : Memory.SharedMemory → Memory.Res Memory.SharedMemory) : M Unit := fun s =>
-  match f s.mem with
-  | .ok m => .ok () { s with mem := m }
-  | .panic => .fault .panic
-  | .ub => .fault .oobMemory
+  memRes (f s.mem) fun m => .ok () { s with mem := m }
 
 /-- `shared_memory.slice(offset, len)` -/
 def memSlice (offset len : Nat) : M (List Nat) := fun s =>
-  match Memory.slice s.mem offset len with
-  | .ok a => .ok a s
-  | .panic => .fault .panic
-  | .ub => .fault .oobMemory
+  memRes (Memory.slice s.mem offset len) fun a => .ok a s
 
 /-- `shared_memory.slice_range(start..end)` -/
 def memSliceRange (start stop : Nat) : M (List Nat) := fun s =>
-  match Memory.sliceRange s.mem start stop with
-  | .ok a => .ok a s
-  | .panic => .fault .panic
-  | .ub => .fault .oobMemory
+  memRes (Memory.sliceRange s.mem start stop) fun a => .ok a s
 
 def memGetU256 (offset : Nat) : M Nat := fun s =>
-  match Memory.getU256 s.mem offset with
-  | .ok a => .ok a s
-  | .panic => .fault .panic
-  | .ub => .fault .oobMemory
+  memRes (Memory.getU256 s.mem offset) fun a => .ok a s
 
 def memSetU256 (offset v : Nat) : M Unit := liftMemWrite fun m => Memory.setU256 m offset v
 def memSetByte (offset b : Nat) : M Unit := liftMemWrite fun m => Memory.setByte m offset b
@@ -502,6 +489,16 @@ def advancePc (n : Nat) : M Unit := modifyS fun s => { s with pc := s.pc + n }
 def KECCAK_EMPTY : Nat := 0xc5d2460186f7233c927e7db2dcc703c0e500b653ca82273b7bfad8045d85a470
 def MAX_INITCODE_SIZE : Nat := 49152
 
+/-- the constant gas tiers of `gas/constants.rs` used by the `gas!(interp, gas::X)` handlers below -/
+inductive Tier | base | verylow | low | mid
+  deriving DecidableEq, Repr
+
+def Tier.cost : Tier → Nat
+  | .base => GasCalc.BASE
+  | .verylow => GasCalc.VERYLOW
+  | .low => GasCalc.LOW
+  | .mid => GasCalc.MID
+
 /-- the handlers, grouped by shape. Handlers that are one generic Rust function (`push::<N>`, `dup::<N>`,
 `swap::<N>`, `log::<N>`, `create::<IS_CREATE2>`) are one constructor; the arithmetic / comparison / bitwise
 handlers (`gas!; pop_top!; *top = f(..)`) are `unop` / `binop` / `terop` with their constant gas, activation fork and
@@ -512,13 +509,15 @@ inductive Instr
   | eofOnly
   /-- RETURNCONTRACT (`require_init_eof!` first) -/
   | returnContract
-  | unop (gas : Nat) (f : Nat → Nat)
-  | binop (gas fork : Nat) (f : Nat → Nat → Nat)
-  | terop (gas : Nat) (f : Nat → Nat → Nat → Nat)
+  | unop (gas : Tier) (f : Nat → Nat)
+  | binop (gas : Tier) (fork : Nat) (f : Nat → Nat → Nat)
+  | terop (gas : Tier) (f : Nat → Nat → Nat → Nat)
   | exp
   | keccak256
-  /-- `check!(fork); gas!(gas); push!(v)`; `v = none` is an `unwrap()` on `None` -/
-  | pushVal (gas fork : Nat) (v : IState → Option Nat)
+  /-- `check!(fork); gas!(gas); push!(v)` -/
+  | pushVal (gas : Tier) (fork : Nat) (v : IState → Nat)
+  /-- DIFFICULTY / PREVRANDAO (`host.env().block.prevrandao.unwrap()` from the Merge on) -/
+  | difficulty
   | calldataload | calldatacopy | codecopy | returndatacopy
   | blobhash
   | pop | push0 | push (n : Fin 32) | dup (n : Fin 16) | swap (n : Fin 16)
@@ -556,13 +555,22 @@ def expI : M Unit := do
   setTop (Arith.exp a b)
 
 /-- `check!; gas!; push!(v)` -/
-def pushValI (gas fork : Nat) (v : IState → Option Nat) : M Unit := do
+def pushValI (gas fork : Nat) (v : IState → Nat) : M Unit := do
   check fork
   gasCharge gas
   let s ← getS
-  match v s with
-  | some w => push w
-  | none => faultWith .panic
+  push (v s)
+
+/-- `host_env::difficulty`: `gas!(BASE)`, then `prevrandao.unwrap()` (a panic on `None`) from the Merge on,
+`difficulty` before -/
+def difficultyI : M Unit := do
+  gasCharge GasCalc.BASE
+  let s ← getS
+  if enabled s.spec GasCalc.SpecId.MERGE then
+    match s.env.prevrandao with
+    | some w => push w
+    | none => faultWith .panic
+  else push s.env.difficulty
 
 /-- big-endian value of the (≤ 32) bytes, right-padded with zeros to 32 -/
 def wordOfBytesPadded (bs : List Nat) : Nat := Memory.beToNat (bs ++ List.replicate (32 - bs.length) 0)
@@ -616,11 +624,17 @@ def blobhashI : M Unit := do
   let i := asUsizeSat idx
   setTop (match s.env.blobHashes[i]? with | some h => h | none => 0)
 
+/-- forget the popped word (`if let Err(result) = interpreter.stack.pop()`) -/
+def resVoid {α} : Stack.Res α → Stack.Res Unit
+  | .ok _ => .ok ()
+  | .err e => .err e
+  | .panic => .panic
+  | .ub => .ub
+
 /-- `stack::pop` -/
 def popI : M Unit := do
   gasCharge GasCalc.BASE
-  stackCall fun d => let r := Stack.pop d; (r.1, match r.2 with
-    | .ok _ => .ok () | .err e => .err e | .panic => .panic | .ub => .ub)
+  stackCall fun d => ((Stack.pop d).1, resVoid (Stack.pop d).2)
 
 /-- `stack::push0` -/
 def push0I : M Unit := do
@@ -722,11 +736,12 @@ def execPure : Instr → Option (M Unit)
   | .eofOnly => some (do requireEof; faultWith .panic)
   | .returnContract => some (fun s =>
       if !s.isEofInit then .halt .ReturnContractInNotInitEOF [] s else .fault .panic)
-  | .unop g f => some (unopI g f)
-  | .binop g k f => some (binopI g k f)
-  | .terop g f => some (teropI g f)
+  | .unop g f => some (unopI g.cost f)
+  | .binop g k f => some (binopI g.cost k f)
+  | .terop g f => some (teropI g.cost f)
   | .exp => some expI
-  | .pushVal g k v => some (pushValI g k v)
+  | .pushVal g k v => some (pushValI g.cost k v)
+  | .difficulty => some difficultyI
   | .calldataload => some calldataloadI
   | .calldatacopy => some (copyToMem fun s => s.input)
   | .codecopy => some (copyToMem fun s => s.code.take s.origLen)
@@ -1100,60 +1115,59 @@ open GasCalc GasCalc.SpecId in
 /-- the handler of an opcode byte -/
 def decode (op : Nat) : Instr :=
   if op = 0x00 then .stop
-  else if op = 0x01 then .binop VERYLOW FRONTIER Arith.add
-  else if op = 0x02 then .binop LOW FRONTIER Arith.mul
-  else if op = 0x03 then .binop VERYLOW FRONTIER Arith.sub
-  else if op = 0x04 then .binop LOW FRONTIER Arith.div
-  else if op = 0x05 then .binop LOW FRONTIER Arith.sdiv
-  else if op = 0x06 then .binop LOW FRONTIER Arith.rem
-  else if op = 0x07 then .binop LOW FRONTIER Arith.smod
-  else if op = 0x08 then .terop MID Arith.addmod
-  else if op = 0x09 then .terop MID Arith.mulmod
+  else if op = 0x01 then .binop .verylow FRONTIER Arith.add
+  else if op = 0x02 then .binop .low FRONTIER Arith.mul
+  else if op = 0x03 then .binop .verylow FRONTIER Arith.sub
+  else if op = 0x04 then .binop .low FRONTIER Arith.div
+  else if op = 0x05 then .binop .low FRONTIER Arith.sdiv
+  else if op = 0x06 then .binop .low FRONTIER Arith.rem
+  else if op = 0x07 then .binop .low FRONTIER Arith.smod
+  else if op = 0x08 then .terop .mid Arith.addmod
+  else if op = 0x09 then .terop .mid Arith.mulmod
   else if op = 0x0a then .exp
-  else if op = 0x0b then .binop LOW FRONTIER Arith.signextend
-  else if op = 0x10 then .binop VERYLOW FRONTIER Arith.lt
-  else if op = 0x11 then .binop VERYLOW FRONTIER Arith.gt
-  else if op = 0x12 then .binop VERYLOW FRONTIER Arith.slt
-  else if op = 0x13 then .binop VERYLOW FRONTIER Arith.sgt
-  else if op = 0x14 then .binop VERYLOW FRONTIER Arith.eq
-  else if op = 0x15 then .unop VERYLOW Arith.iszero
-  else if op = 0x16 then .binop VERYLOW FRONTIER Arith.bitand
-  else if op = 0x17 then .binop VERYLOW FRONTIER Arith.bitor
-  else if op = 0x18 then .binop VERYLOW FRONTIER Arith.bitxor
-  else if op = 0x19 then .unop VERYLOW Arith.bitnot
-  else if op = 0x1a then .binop VERYLOW FRONTIER Arith.byte
-  else if op = 0x1b then .binop VERYLOW CONSTANTINOPLE Arith.shl
-  else if op = 0x1c then .binop VERYLOW CONSTANTINOPLE Arith.shr
-  else if op = 0x1d then .binop VERYLOW CONSTANTINOPLE Arith.sar
+  else if op = 0x0b then .binop .low FRONTIER Arith.signextend
+  else if op = 0x10 then .binop .verylow FRONTIER Arith.lt
+  else if op = 0x11 then .binop .verylow FRONTIER Arith.gt
+  else if op = 0x12 then .binop .verylow FRONTIER Arith.slt
+  else if op = 0x13 then .binop .verylow FRONTIER Arith.sgt
+  else if op = 0x14 then .binop .verylow FRONTIER Arith.eq
+  else if op = 0x15 then .unop .verylow Arith.iszero
+  else if op = 0x16 then .binop .verylow FRONTIER Arith.bitand
+  else if op = 0x17 then .binop .verylow FRONTIER Arith.bitor
+  else if op = 0x18 then .binop .verylow FRONTIER Arith.bitxor
+  else if op = 0x19 then .unop .verylow Arith.bitnot
+  else if op = 0x1a then .binop .verylow FRONTIER Arith.byte
+  else if op = 0x1b then .binop .verylow CONSTANTINOPLE Arith.shl
+  else if op = 0x1c then .binop .verylow CONSTANTINOPLE Arith.shr
+  else if op = 0x1d then .binop .verylow CONSTANTINOPLE Arith.sar
   else if op = 0x20 then .keccak256
-  else if op = 0x30 then .pushVal BASE FRONTIER (fun s => some s.target)
+  else if op = 0x30 then .pushVal .base FRONTIER (fun s => s.target)
   else if op = 0x31 then .balance
-  else if op = 0x32 then .pushVal BASE FRONTIER (fun s => some s.env.origin)
-  else if op = 0x33 then .pushVal BASE FRONTIER (fun s => some s.caller)
-  else if op = 0x34 then .pushVal BASE FRONTIER (fun s => some s.callValue)
+  else if op = 0x32 then .pushVal .base FRONTIER (fun s => s.env.origin)
+  else if op = 0x33 then .pushVal .base FRONTIER (fun s => s.caller)
+  else if op = 0x34 then .pushVal .base FRONTIER (fun s => s.callValue)
   else if op = 0x35 then .calldataload
-  else if op = 0x36 then .pushVal BASE FRONTIER (fun s => some s.input.length)
+  else if op = 0x36 then .pushVal .base FRONTIER (fun s => s.input.length)
   else if op = 0x37 then .calldatacopy
-  else if op = 0x38 then .pushVal BASE FRONTIER (fun s => some s.origLen)
+  else if op = 0x38 then .pushVal .base FRONTIER (fun s => s.origLen)
   else if op = 0x39 then .codecopy
-  else if op = 0x3a then .pushVal BASE FRONTIER (fun s => some s.env.effectiveGasPrice)
+  else if op = 0x3a then .pushVal .base FRONTIER (fun s => s.env.effectiveGasPrice)
   else if op = 0x3b then .extcodesize
   else if op = 0x3c then .extcodecopy
-  else if op = 0x3d then .pushVal BASE BYZANTIUM (fun s => some s.returnData.length)
+  else if op = 0x3d then .pushVal .base BYZANTIUM (fun s => s.returnData.length)
   else if op = 0x3e then .returndatacopy
   else if op = 0x3f then .extcodehash
   else if op = 0x40 then .blockhash
-  else if op = 0x41 then .pushVal BASE FRONTIER (fun s => some s.env.coinbase)
-  else if op = 0x42 then .pushVal BASE FRONTIER (fun s => some s.env.timestamp)
-  else if op = 0x43 then .pushVal BASE FRONTIER (fun s => some s.env.number)
-  else if op = 0x44 then .pushVal BASE FRONTIER
-    (fun s => if enabled s.spec MERGE then s.env.prevrandao else some s.env.difficulty)
-  else if op = 0x45 then .pushVal BASE FRONTIER (fun s => some s.env.gasLimit)
-  else if op = 0x46 then .pushVal BASE ISTANBUL (fun s => some s.env.chainId)
+  else if op = 0x41 then .pushVal .base FRONTIER (fun s => s.env.coinbase)
+  else if op = 0x42 then .pushVal .base FRONTIER (fun s => s.env.timestamp)
+  else if op = 0x43 then .pushVal .base FRONTIER (fun s => s.env.number)
+  else if op = 0x44 then .difficulty
+  else if op = 0x45 then .pushVal .base FRONTIER (fun s => s.env.gasLimit)
+  else if op = 0x46 then .pushVal .base ISTANBUL (fun s => s.env.chainId)
   else if op = 0x47 then .selfbalance
-  else if op = 0x48 then .pushVal BASE LONDON (fun s => some s.env.basefee)
+  else if op = 0x48 then .pushVal .base LONDON (fun s => s.env.basefee)
   else if op = 0x49 then .blobhash
-  else if op = 0x4a then .pushVal BASE CANCUN (fun s => some (s.env.blobGasPrice.getD 0))
+  else if op = 0x4a then .pushVal .base CANCUN (fun s => s.env.blobGasPrice.getD 0)
   else if op = 0x50 then .pop
   else if op = 0x51 then .mload
   else if op = 0x52 then .mstore
@@ -1162,9 +1176,9 @@ def decode (op : Nat) : Instr :=
   else if op = 0x55 then .sstore
   else if op = 0x56 then .jump
   else if op = 0x57 then .jumpi
-  else if op = 0x58 then .pushVal BASE FRONTIER (fun s => some (s.pc - 1))
-  else if op = 0x59 then .pushVal BASE FRONTIER (fun s => some (Memory.len s.mem))
-  else if op = 0x5a then .pushVal BASE FRONTIER (fun s => some s.gas.remaining)
+  else if op = 0x58 then .pushVal .base FRONTIER (fun s => s.pc - 1)
+  else if op = 0x59 then .pushVal .base FRONTIER (fun s => Memory.len s.mem)
+  else if op = 0x5a then .pushVal .base FRONTIER (fun s => s.gas.remaining)
   else if op = 0x5b then .jumpdest
   else if op = 0x5c then .tload
   else if op = 0x5d then .tstore
